@@ -537,6 +537,11 @@ func (d *Driver) checkFiles(v interface{}) []string {
 			continue
 		}
 		if strings.HasSuffix(f.Name, ".d") {
+			for _, sub := range []string{"b.dat", "0", "x/deep.dat"} {
+				if _, err := os.Stat(path.Join(p, sub)); err != nil {
+					missing = append(missing, f.Key()+"("+sub+")")
+				}
+			}
 			p = path.Join(p, "a.dat")
 		}
 		if b, err := os.ReadFile(p); err != nil {
@@ -691,9 +696,12 @@ func (d *Driver) writeFiles(j *job, outs interface{}) interface{} {
 		}
 		if strings.HasSuffix(f.Name, ".d") {
 			// a directory output with two files in it
-			os.MkdirAll(p, 0755)
+			os.MkdirAll(path.Join(p, "x"), 0755)
 			writeFile(path.Join(p, "a.dat"), fileContent(f.Key()))
 			writeFile(path.Join(p, "b.dat"), []byte("second file of "+f.Key()+"\n"))
+			// entries with one-character names, a file and a sub-directory
+			writeFile(path.Join(p, "0"), []byte("shard 0 of "+f.Key()+"\n"))
+			writeFile(path.Join(p, "x", "deep.dat"), []byte("below x of "+f.Key()+"\n"))
 		} else {
 			writeFile(p, fileContent(f.Key()))
 			// an unreferenced file whose name extends the output's name
@@ -1450,6 +1458,16 @@ func (d *Driver) finalSweep(ctx context.Context) {
 	var present, damaged, gone []string
 	for k, p := range d.filePath {
 		if strings.HasSuffix(k, ".d") {
+			whole := true
+			for _, sub := range []string{"b.dat", "0", "x/deep.dat"} {
+				if _, err := os.Stat(path.Join(p, sub)); err != nil {
+					whole = false
+				}
+			}
+			if _, err := os.Stat(path.Join(p, "a.dat")); err == nil && !whole {
+				damaged = append(damaged, k) // the directory is there, part of its content is not
+				continue
+			}
 			p = path.Join(p, "a.dat")
 		}
 		if b, err := os.ReadFile(p); err != nil {
